@@ -14,7 +14,7 @@ META = dict(
                       "estimator capture with a foreign domain (2 filters, 2 signals)",
                 thorough="domains up to 5 points, common grid up to 9 points"),
     stubs=["scipy interp1d -> sorts its x, piecewise-linear interpolant as If-terms, fill_value outside, call arguments recorded"],
-    assumptions=["real arithmetic", "domains strictly monotone (ascending or descending); arbitrary unsorted domains only through the sorting fork of the stub (length <= 3)"],
+    assumptions=["real arithmetic", "domains strictly monotone (ascending or descending); arbitrary unsorted domains only through the sorting fork of the stub (length <= 3) and as two concrete zig-zag pairs with symbolic arrays"],
     outside=["scipy's interpolation arithmetic itself", "common grids with more points than the bound"],
 )
 
@@ -112,7 +112,7 @@ def equalize_case(M, lens, kinds, shapes, axes, fill=0, offsets=None, stack=None
             if out.shape != tuple(shp):
                 continue
             a_last = np.moveaxis(np.asarray(arrs[i]), axes[i], -1); o_last = np.moveaxis(out, axes[i], -1)
-            xs, ya = (list(np.asarray(doms[i])), a_last) if kinds[i] == "asc" else (list(np.asarray(doms[i]))[::-1], a_last[..., ::-1])
+            xs, ya = _sorted_xy(doms[i], a_last, kinds[i])
             spec = np.empty(o_last.shape, dtype=object)
             for idx in np.ndindex(*o_last.shape[:-1]):
                 for q in range(npts):
@@ -123,7 +123,7 @@ def equalize_case(M, lens, kinds, shapes, axes, fill=0, offsets=None, stack=None
         parts = []
         for i in range(nd):
             a_last = np.moveaxis(np.asarray(arrs[i]), axes[i], -1)
-            xs, ya = (list(np.asarray(doms[i])), a_last) if kinds[i] == "asc" else (list(np.asarray(doms[i]))[::-1], a_last[..., ::-1])
+            xs, ya = _sorted_xy(doms[i], a_last, kinds[i])
             spec = np.empty(a_last.shape[:-1] + (npts,), dtype=object)
             for idx in np.ndindex(*spec.shape[:-1]):
                 for q in range(npts):
@@ -144,6 +144,15 @@ def _max(M, xs):
     if M.symbolic:
         return symnp._reduce(symnp.smax, np.array([x if isinstance(x, S) else S(lift(x)) for x in xs], dtype=object), None)
     return max(float(x) for x in xs)
+
+
+def _sorted_xy(dom, a_last, kind):
+    if kind == "asc":
+        return list(np.asarray(dom)), a_last
+    if kind == "perm":  # concrete unsorted (zig-zag) domain: the sort order is known
+        order = np.argsort(np.asarray(dom, dtype=float), kind="stable")
+        return list(np.asarray(dom)[order]), a_last[..., order]
+    return list(np.asarray(dom))[::-1], a_last[..., ::-1]
 
 
 def _mean_step(M, d):
@@ -257,6 +266,10 @@ def cases(tier, seed):
     for nm, cs in (("[0,2,..,10] / [3,6,9,12]", ([0, 2, 4, 6, 8, 10], [3, 6, 9, 12])), ("[300,350,..,700] / [350,550,750]", (list(range(300, 701, 50)), [350, 550, 750])),
                    ("[10,8,..,0] / [1,4,7]", ([10, 8, 6, 4, 2, 0], [1, 4, 7]))):
         add(f"integer-typed domains {nm}", "equalize_case", lens=[len(c) for c in cs], kinds=["asc" if c[0] < c[-1] else "desc" for c in cs],
+            shapes=[(len(c),) for c in cs], axes=[0, 0], concrete=[list(c) for c in cs])
+    for nm, cs in (("[0,4,2,6,10,8] / [3..9]", ([0, 4, 2, 6, 10, 8], [3, 4, 5, 6, 7, 8, 9])), ("[5,1,3,9,7] / [8,2,4,6]", ([5, 1, 3, 9, 7], [8, 2, 4, 6]))):
+        # concrete unsorted (zig-zag) domains: mean step = mean of the SORTED differences; arrays stay symbolic
+        add(f"unsorted concrete domains {nm}", "equalize_case", lens=[len(c) for c in cs], kinds=["perm" for c in cs],
             shapes=[(len(c),) for c in cs], axes=[0, 0], concrete=[list(c) for c in cs])
     for ax in (0, 1, -1):
         shp = [(3, 2), (4, 2)] if ax == 0 else [(2, 3), (2, 4)]
